@@ -3,7 +3,6 @@ package middleware
 import (
 	"net"
 	"net/http"
-	"net/url"
 	"strings"
 
 	"github.com/justinas/alice"
@@ -35,8 +34,9 @@ func redirectToHTTPS(httpsPort string, next http.Handler) http.Handler {
 			return
 		}
 
-		// Copy the request URL
-		targetURL, _ := url.Parse(req.URL.String())
+		// Copy the request URL (re-parsing its string form can fail, e.g. for
+		// a request target like "//a:b/c", and would leave nothing to redirect to)
+		targetURL := *req.URL
 		// Set the scheme to HTTPS
 		targetURL.Scheme = httpsScheme
 
